@@ -8,7 +8,7 @@ LEVEL = "exploration"
 RULE = ("case = {fl, ci, ops, probe}: a section state and one probe key. States: every distinct section (order, "
         "original and session mnemonic of each item) that lasio reaches by <= 4 (thorough <= 5) operations of "
         "{append, insert@{0,mid,end}, del by index, del section[key], section[key]=item, replace_curve_item} over "
-        "names {A, a, b, '', '1', 'A:1'} x mnemonic_transforms {off,on} x flavour {bare SectionItems of HeaderItems, "
+        "names {A, a, b, '', '1', 'A:1', GR, _S} (and <= 3 operations over {U+00B5 micro sign, A}) x mnemonic_transforms {off,on} x flavour {bare SectionItems of HeaderItems, "
         "~Curves of a LASFile}; found by breadth-first search that runs lasio and keeps the first (shortest) history "
         "per state. Probes per state: each session name present, 'ZZ' and '' (absent), the other-case spelling of each "
         "present name, names with a blank before/after, '1' and '0', ints {0, 1, -1, n, -n-1}, slices {0:2, :, -2:, ::-1}; for "
@@ -20,7 +20,8 @@ RULE = ("case = {fl, ci, ops, probe}: a section state and one probe key. States:
 ASSUMPTIONS = [
     "the session mnemonics a lookup has to honour are the ones the items carry (item.mnemonic, equal to keys()); "
     "how they were assigned is C13's subject",
-    "'ignoring case' is str.upper() equality; names are ASCII",
+    "'ignoring case' is str.upper() equality; names are ASCII plus the micro sign U+00B5, whose upper case is a Greek letter "
+    "that does not fold back to it (only that `in`, item access, attribute access and get() agree on one reading is judged)",
     "getattr is only asked for keys that are identifiers and do not name an attribute of list / SectionItems",
     "for absent string keys only what the statement names is required: `in` False, KeyError from s[k] and del s[k], "
     "get() leaving the section alone, get(add=True) appending exactly one item (session names of other items may "
@@ -32,6 +33,7 @@ ASSUMPTIONS = [
 ]
 
 NAMES = ["A", "a", "b", "", "1", "A:1", "GR", "_S"]
+NAMES_NONASCII = ["\u00b5", "A"]  # explored to 3 operations only
 PLAIN = "plain value"
 
 _STATES = {}
@@ -52,10 +54,14 @@ def reachable_states(tier):
             seen = {(): True}
             frontier = [([], [])]
             res.append((fl, ci, [], []))
-            for level in range(depth if fl != "file-params" else depth - 1):  # reading a file per case is slow
+            levels = depth if fl != "file-params" else depth - 1  # reading a file per case is slow
+            for level in range(levels + 3):
+                if level == levels:
+                    frontier = [([], [])]  # second search from the empty section: the small non-ASCII alphabet, 3 operations
+                names = NAMES if level < levels else NAMES_NONASCII
                 nxt = []
                 for ops, keys in frontier:
-                    for op in sm.applicable_ops(keys, NAMES, rci=(fl == "curves")):
+                    for op in sm.applicable_ops(keys, names, rci=(fl == "curves")):
                         d = attempt(sm.build, fl, ci, ops + [op])
                         if is_raised(d):
                             continue
@@ -362,6 +368,20 @@ def judge_int(out, case, st, i, ci):
             out.fail("failed-del-changed-section|%s" % kc, "after del s[%d]: %r; %s" % (i, st.show(), ctx))
 
     if inr:
+        # the same item OBJECT at two positions (the move idiom: insert it where it should go, delete the old position):
+        # an integer addresses the position, not the first occurrence of the object found there
+        st = fresh(case)
+        before = list(st.items)
+        r0 = attempt(st.s.append, before[i])
+        if not is_raised(r0) and same_items(st.d.items(), before + [before[i]]):
+            out.cls("item-object-held-twice")
+            last = n if i >= 0 else -1
+            r = attempt(st.s.__delitem__, last)
+            if is_raised(r) or not same_items(st.d.items(), before):
+                out.fail("int-del-not-positional|item-object-held-twice",
+                         "section %r with item %d appended once more, then del s[%d] -> %r: section now %r, a list drops "
+                         "the last position; %s" % (sm.render(before), i % n, last, r, st.show(), ctx))
+
         st = fresh(case)
         r = attempt(st.s.__setitem__, i, PLAIN)
         now = st.d.items()
